@@ -12,6 +12,7 @@ import (
 	_ "verif/harness/c06"
 	_ "verif/harness/c07"
 	_ "verif/harness/c14"
+	_ "verif/harness/c15"
 	_ "verif/harness/c16"
 	_ "verif/harness/c17"
 	_ "verif/harness/c18"
